@@ -23,7 +23,7 @@ import propkit
 import vlib
 
 MANIFEST = {
-  "text": "proof over R (Coquelicot): _poly_force is the coefficient c(x), _poly_force_deriv = d/dx (x*c(x)) for every x incl. 0 and both parities; poly_potential' = x*c(x) up to the source's binary64 constant 1/3 (_partial); the passive damper kernel stores -v*c(v) for hinge/slide dofs; _compute_damping_deriv stores minus d(damper force)/dv; _euler_damp_qfrc adds h*deriv at rowadr+rownnz-1 which under MuJoCo's CSR-lower invariant is the unique diagonal slot of that dof and of no other; _qderiv_actuator_passive stores M - h*(qDeriv + [i=j] d damper/dv); the passive tendon kernel adds J*(-v*c(v)) and _qderiv_tendon_damping subtracts h*sum over ALL tendons of JJ(t)*d(damper force_t)/dv_t with JJ fixed before coefficients and velocities are chosen (no tendon skipped because of its coefficient values; the Jacobian row search itself is tested only); muscle_gain_vel = d muscle_gain/d velocity away from the FV breakpoints (_partial); the actuator kernel's value is d force/d velocity, taken at the ctrlrange-clamped control, for fixed/affine/muscle gain and bias and every non-DC-motor dynamics (hand models), and 0 when clamped by forcerange; deriv_rne_body2jnt_sparse adds with flg_subtract=False. RNE passes, fluid and tendon-damping kernels, assembly of the whole matrix and float32 are tested only (MuJoCo analytic qDeriv and float64 finite differences on random models).",
+  "text": "proof over R (Coquelicot): _poly_force is the coefficient c(x), _poly_force_deriv = d/dx (x*c(x)) for every x incl. 0 and both parities; poly_potential' = x*c(x) up to the source's binary64 constant 1/3 (_partial); the passive damper kernel stores -v*c(v) for hinge/slide dofs; _compute_damping_deriv stores minus d(damper force)/dv; _euler_damp_qfrc adds h*deriv at rowadr+rownnz-1 which under MuJoCo's CSR-lower invariant is the unique diagonal slot of that dof and of no other; _qderiv_actuator_passive stores M - h*(qDeriv + [i=j] d damper/dv); _qderiv_box_fluid adds -h*J_i^T B J_j whenever density > 0 OR viscosity > 0 and nothing otherwise, B (_deriv_box_fluid) is diagonal and its diagonal is the derivative of the hand-modelled inertia-box fluid force of passive._fluid_force (exact for density-only media, up to the binary64 constants 1/3 and 3*pi with viscosity: _partial); the passive tendon kernel adds J*(-v*c(v)) and _qderiv_tendon_damping subtracts h*sum over ALL tendons of JJ(t)*d(damper force_t)/dv_t with JJ fixed before coefficients and velocities are chosen (no tendon skipped because of its coefficient values; the Jacobian row search itself is tested only); muscle_gain_vel = d muscle_gain/d velocity away from the FV breakpoints (_partial); the actuator kernel's value is d force/d velocity, taken at the ctrlrange-clamped control, for fixed/affine/muscle gain and bias and every non-DC-motor dynamics (hand models), and 0 when clamped by forcerange; deriv_rne_body2jnt_sparse adds with flg_subtract=False. RNE passes, fluid and tendon-damping kernels, assembly of the whole matrix and float32 are tested only (MuJoCo analytic qDeriv and float64 finite differences on random models).",
   "note": "trusted: Coq kernel + Coquelicot; translator bin/translate.py (validated each run: T-validation and traced-launch kernel validation); hand models Model/Deriv.v (compared with the real kernels each run); real-number axioms of Coq's Reals; MuJoCo 3.13 C as oracle; finite differences in float64 with step 1e-6",
   "technique": "Rocq proof over machine-translated functions/kernels (T) and two validated hand models, plus translation validation and a differential + finite-difference oracle",
   "engine": "coq",
@@ -33,7 +33,7 @@ PROPS = "Props/C27.v"
 GENS = ["T_util_misc", "T_derivative", "T_passive", "kforward", "support_act"]
 FUNCS = ["_poly_force", "_poly_force_deriv", "poly_potential", "next_act"]
 KERNELS = {
-  "T_derivative": ["_qderiv_actuator_passive", "_qderiv_actuator_passive_actuation_sparse", "_qderiv_tendon_damping", "deriv_rne_body2jnt_sparse", "deriv_rne_cvel_cdof_dot", "deriv_rne_cacc_cfrcbody_forward", "deriv_rne_cfrcbody_backward"],
+  "T_derivative": ["_qderiv_actuator_passive", "_qderiv_actuator_passive_actuation_sparse", "_qderiv_tendon_damping", "deriv_rne_body2jnt_sparse", "deriv_rne_cvel_cdof_dot", "deriv_rne_cacc_cfrcbody_forward", "deriv_rne_cfrcbody_backward", "_qderiv_box_fluid"],
   "kforward": ["_compute_damping_deriv", "_euler_damp_qfrc"],
   "T_passive": ["_spring_damper_dof_passive", "_spring_damper_tendon_passive"],
 }
@@ -254,6 +254,69 @@ def model_corr_force(res, n):
   return [{"case": i, "kernel_force": float(fo[i]), **{k: np.asarray(P[k][i]).tolist() for k in keys}} for i, v in enumerate(verdicts) if v == 2]
 
 
+def model_corr_fluid(res, nbody):
+  """fluid_force_box_model vs the real passive._fluid_force (inertia-box branch): 8 worlds = media
+  {both, density only, viscosity only, neither} x {no wind, wind}; random bodies (rotation, CoM offset from the
+  subtree root, spatial velocity, mass / inertia incl. one below MINVAL)."""
+  import warp as wp
+
+  import tvalid
+
+  import mujoco_warp._src.passive as PS
+
+  rng = np.random.default_rng(vlib.seed() + 2708)
+  nb = nbody + 1
+  media = [(d_, v_, w_) for w_ in (0, 1) for (d_, v_) in ((1, 1), (1, 0), (0, 1), (0, 0))]
+  nw = len(media)
+  dens = np.array([rng.uniform(1, 40) * d_ for d_, _, _ in media], dtype=np.float32)
+  visc = np.array([rng.uniform(0.05, 0.5) * v_ for _, v_, _ in media], dtype=np.float32)
+  wind = np.array([rng.normal(0, 1.5, 3) * w_ for _, _, w_ in media], dtype=np.float32)
+  mass = rng.uniform(0.2, 3, (1, nb)).astype(np.float32)
+  mass[0, nb - 1] = 0.0  # negligible mass: the kernel stores zero
+  inertia = rng.uniform(0.01, 0.2, (1, nb, 3)).astype(np.float32)
+  inertia[0, 1] = [0.3, 0.05, 0.05]  # violates the triangle inequality: max(MINVAL, .) is active
+  q = rng.normal(0, 1, (nw, nb, 4))
+  q /= np.linalg.norm(q, axis=2, keepdims=True)
+  a, b_, c, d_ = q[..., 0], q[..., 1], q[..., 2], q[..., 3]
+  rot = np.stack([1 - 2 * (c * c + d_ * d_), 2 * (b_ * c - a * d_), 2 * (b_ * d_ + a * c), 2 * (b_ * c + a * d_), 1 - 2 * (b_ * b_ + d_ * d_), 2 * (c * d_ - a * b_),
+                  2 * (b_ * d_ - a * c), 2 * (c * d_ + a * b_), 1 - 2 * (b_ * b_ + c * c)], axis=-1).reshape(nw, nb, 3, 3).astype(np.float32)  # fmt: skip
+  xipos = rng.normal(0, 0.5, (nw, nb, 3)).astype(np.float32)
+  scom = rng.normal(0, 0.5, (nw, nb, 3)).astype(np.float32)
+  cvel = (rng.normal(0, 1, (nw, nb, 6)) * 10.0 ** rng.uniform(-1, 1, (nw, nb, 1))).astype(np.float32)
+  cvel[:, 2, 1] = 0.0  # |v| kink
+  out = wp.zeros((nw, nb), dtype=wp.spatial_vector)
+  by_name = dict(
+    opt_wind=wp.array(wind, dtype=wp.vec3), opt_density=wp.array(dens, dtype=float), opt_viscosity=wp.array(visc, dtype=float),
+    body_rootid=wp.array(np.arange(nb), dtype=int), body_geomnum=wp.zeros(nb, dtype=int), body_geomadr=wp.zeros(nb, dtype=int),
+    body_mass=wp.array(mass, dtype=float), body_inertia=wp.array(inertia, dtype=wp.vec3), geom_type=wp.zeros(1, dtype=int),
+    geom_size=wp.zeros((1, 1), dtype=wp.vec3), geom_fluid=wp.zeros((1, 12), dtype=float), body_fluid_ellipsoid=wp.zeros(nb, dtype=wp.bool),
+    xipos_in=wp.array(xipos, dtype=wp.vec3), ximat_in=wp.array(rot, dtype=wp.mat33), geom_xpos_in=wp.zeros((nw, 1), dtype=wp.vec3),
+    geom_xmat_in=wp.zeros((nw, 1), dtype=wp.mat33), subtree_com_in=wp.array(scom, dtype=wp.vec3), cvel_in=wp.array(cvel, dtype=wp.spatial_vector),
+    fluid_applied_out=out,
+  )  # fmt: skip
+  args, unknown = _args_by_name(PS._fluid_force, by_name)
+  if unknown:
+    return [{"error": f"_fluid_force has parameters the hand model does not know: {unknown}"}]
+  wp.launch(PS._fluid_force, dim=(nw, nb), inputs=args)
+  wp.synchronize()
+  o = out.numpy()
+  fl, fh = vlib.flist, vlib.fhex
+  lines, meta = [], []
+  for w in range(nw):
+    for b in range(1, nb):
+      lines.append(
+        f"tv3 {fh(2e-4)} (fun Sc => @fluid_force_box_model float Sc {fh(mass[0, b])} {fl(inertia[0, b])} {fl(rot[w, b].reshape(-1))} {fl(xipos[w, b])} {fl(scom[w, b])} "
+        f"{fl(cvel[w, b])} {fl(wind[w])} {fh(dens[w])} {fh(visc[w])}) {fl(o[w, b])}"
+      )
+      meta.append((w, b))
+      res.nontrivial(("fluid-model", media[w], b))
+  verdicts = tvalid.run_cases("C27b", ["Model.Deriv"], lines)
+  res.count(len(lines))
+  res.extra["model_fluid_correspondence"] = {"agree": verdicts.count(0), "discarded": verdicts.count(1), "disagree": verdicts.count(2)}
+  return [dict(world=w, body=b, density=float(dens[w]), viscosity=float(visc[w]), wind=wind[w].tolist(), mass=float(mass[0, b]), inertia=inertia[0, b].tolist(), ximat=rot[w, b].tolist(),
+               xipos=xipos[w, b].tolist(), subtree_com=scom[w, b].tolist(), cvel=cvel[w, b].tolist(), kernel=o[w, b].tolist()) for (w, b), v in zip(meta, verdicts) if v == 2]  # fmt: skip
+
+
 # ---------------------------------------------------------------------------------------------
 # translated kernels vs traced launches of the real pipeline
 # ---------------------------------------------------------------------------------------------
@@ -292,6 +355,10 @@ def kvalidate(res, trs, quick):
         mjm.tendon_dampingpoly[:] = rng.uniform(0, 0.3, (mjm.ntendon, 2))
         mjm.tendon_damping[0] = 0.0  # purely polynomial tendon damper (zero linear part)
         mjm.dof_damping[0] = 0.0
+      if mjm.opt.density > 0 and integ == IMPLICIT:
+        mjm.opt.viscosity = 0.0  # density-only medium
+      if mjm.opt.density > 0 and integ == IMPLICITFAST:
+        mjm.opt.density = 0.0  # viscosity-only medium
       mjd = mujoco.MjData(mjm)
       mjd.qvel[:] = rng.normal(0, 2, mjm.nv).astype(np.float32)
       mjd.ctrl[:] = rng.normal(0, 1, mjm.nu).astype(np.float32)
@@ -1036,7 +1103,9 @@ def run(res):
     res.obligation("correspondence: qderiv_vel_model vs real _qderiv_actuator_passive_vel", not vb, f"{len(vb)} disagreements; {res.extra.get('model_vel_correspondence', vb[:1])}")
     fb = model_corr_force(res, 60 if quick else 1200)
     res.obligation("correspondence: actuator_force_model vs real _actuator_force", not fb, f"{len(fb)} disagreements; {res.extra.get('model_force_correspondence', fb[:1])}")
-    mbad = vb + fb
+    bb = model_corr_fluid(res, 6 if quick else 40)
+    res.obligation("correspondence: fluid_force_box_model vs real _fluid_force (inertia-box branch, all media)", not bb, f"{len(bb)} disagreements; {res.extra.get('model_fluid_correspondence', bb[:1])}")
+    mbad = vb + fb + bb
   lap("hand-model correspondence")
   kbad = []
   if tr_ok:
@@ -1070,7 +1139,7 @@ def run(res):
     propkit.broken_proof_violation(res, "C27 theorems over the regenerated derivative/damping kernels", failing or "Gen/T_derivative.v")
   res.assumptions += [
     "float32 rounding is not modelled: theorems are over R; oracle tolerance as in `rule`",
-    "qderiv_vel_model / actuator_force_model are hand copies (translator rejects dcmotor_slots' vector element assignment); they are compared with the real kernels on every run",
+    "fluid_force_box_model (inertia-box branch of passive._fluid_force; the translator rejects wp.pow) and qderiv_vel_model / actuator_force_model are hand copies (translator rejects dcmotor_slots' vector element assignment); they are compared with the real kernels on every run",
     "the actuator theorem covers fixed/affine/muscle/user gain and none/affine/muscle/user bias with every non-DC-motor dynamics type; muscle gain only away from the three FV breakpoints; DC-motor branches are only in the correspondence",
     "RNE passes, fluid derivative kernels, tendon damping kernel and the assembly over all dof pairs are covered by the oracle only",
     "implicitfast is compared with the symmetrised derivative without the bias term on M's pattern (the integrator's documented approximation); childless free bodies are compared with finite differences only (MuJoCo 3.13 differs there: C08:implicitfast:childless-free-body-rne-derivative)",
